@@ -46,6 +46,7 @@ type Line struct {
 	// Tick: instead of a fixed pause the line is sent when the clock reaches the first 200 ms mark (the period of the
 	// streamer's heart-beat, counted from the pipeline's start) that lies more than one time-out ahead, plus TickOff:
 	// the put then races with the heart-beat that delivers the stream's time-out
+	Drop    bool          `json:"drop,omitempty"` // discarded by the action behind the multi-line action (DropAfter)
 	Tick    bool          `json:"tick,omitempty"`
 	TickOff time.Duration `json:"tick_off,omitempty"`
 }
@@ -65,6 +66,7 @@ type Cfg struct {
 	Readers      [][]Line      `json:"readers"`
 	MatchLvl     string        `json:"match_lvl,omitempty"`   // the action is applied only to events with lvl == this value
 	MatchDoIf    bool          `json:"match_do_if,omitempty"` // the condition is given as do_if instead of match_fields
+	DropAfter    bool          `json:"drop_after,omitempty"`  // a discarding action follows the multi-line action
 }
 
 func (c *Cfg) SimCfg() *simrt.Config { return &c.Sim }
@@ -121,6 +123,7 @@ func (h *H) Gen(rng *rand.Rand, tier, prop string) core.Cfg {
 		c.MatchLvl = "e"
 		c.MatchDoIf = core.Chance(rng, 0.5)
 	}
+	c.DropAfter = c.Action != "k8s" && core.Chance(rng, 0.3)
 	nReaders := core.Between(rng, 1, 3)
 	nSources := core.Between(rng, nReaders, nReaders+1)
 	streams := []string{"stdout", "stderr"}[:core.Between(rng, 1, 2)]
@@ -154,6 +157,9 @@ func (h *H) Gen(rng *rand.Rand, tier, prop string) core.Cfg {
 			if cl := newClassifier(c); !l.NoMsg && !l.NotStr && cl.first(l.Msg) {
 				l.Lvl = c.MatchLvl
 			}
+		}
+		if c.DropAfter && core.Chance(rng, 0.3) {
+			l.Drop = true
 		}
 		switch {
 		case core.Chance(rng, 0.6):
@@ -254,6 +260,29 @@ type sinkOut struct {
 func (s *sinkOut) Start(_ pipeline.AnyConfig, p *pipeline.OutputPluginParams) { s.ctl = p.Controller }
 func (s *sinkOut) Stop()                                                      {}
 func (s *sinkOut) Out(e *pipeline.Event) {
+	s.record(e)
+	s.ctl.Commit(e)
+}
+
+// dropAfter is an action placed behind the multi-line action in part of the runs: it discards events that carry
+// "drop":"1" - after noting them exactly as the sink would, so the oracle sees the sequence of events that left the
+// multi-line action whether or not a later action lets them through.
+type dropAfter struct{ s *sinkOut }
+
+func (a *dropAfter) Start(pipeline.AnyConfig, *pipeline.ActionPluginParams) {}
+func (a *dropAfter) Stop()                                                  {}
+func (a *dropAfter) Do(e *pipeline.Event) pipeline.ActionResult {
+	if e.IsTimeoutKind() {
+		return pipeline.ActionDiscard
+	}
+	if n := e.Root.Dig("drop"); n != nil && n.AsString() == "1" {
+		a.s.record(e)
+		return pipeline.ActionDiscard
+	}
+	return pipeline.ActionPass
+}
+
+func (s *sinkOut) record(e *pipeline.Event) {
 	r := outRec{id: -1, step: simrt.Steps()}
 	// decode the encoded event with an independent parser (and without touching the nodes)
 	var doc map[string]any
@@ -271,7 +300,6 @@ func (s *sinkOut) Out(e *pipeline.Event) {
 		}
 	}
 	s.outs = append(s.outs, r)
-	s.ctl.Commit(e)
 }
 
 type obs struct {
@@ -297,6 +325,9 @@ func lineJSON(c *Cfg, l Line) []byte {
 	}
 	if l.Lvl != "" {
 		fmt.Fprintf(&sb, `,"lvl":%q`, l.Lvl)
+	}
+	if l.Drop {
+		sb.WriteString(`,"drop":"1"`)
 	}
 	switch {
 	case l.NoMsg:
@@ -380,6 +411,9 @@ func (h *H) Run(cc core.Cfg, sim *simrt.Sim) *core.Outcome {
 			}
 		}
 		p.AddAction(info)
+		if cfg.DropAfter {
+			p.AddAction(&pipeline.ActionPluginStaticInfo{PluginStaticInfo: &pipeline.PluginStaticInfo{Type: "dropafter", Factory: func() (pipeline.AnyPlugin, pipeline.AnyConfig) { return &dropAfter{s: out}, nil }}})
+		}
 		p.SetOutput(&pipeline.OutputPluginInfo{PluginStaticInfo: &pipeline.PluginStaticInfo{Type: "out"}, PluginRuntimeInfo: &pipeline.PluginRuntimeInfo{Plugin: out}})
 		t0 := simrt.SimNow()
 		p.Start()
